@@ -24,16 +24,27 @@ Definition pc_cost (p : pc) : nat :=
   | PRefInsert stk => pred (stack_cost stk)
   | PLinked stk => S (stack_cost stk)
   | PReturn _ => 1
+  | PFail stk => S (length stk)
+  | PFailRoot => 1
   end.
 
-Definition thread_cost (th : thread) : nat :=
+(* B pays for the types a call may register again after a failed call has taken them out *)
+Definition thread_cost (B : nat) (th : thread) : nat :=
   match t_calls th with
   | [] => 0
-  | _ :: rest => pc_cost (t_pc th) + 3 * length rest
+  | _ :: rest => pc_cost (t_pc th) + B + (3 + B) * length rest
   end.
 
 Definition mu (g : graph) (U : list name) (st : state) : nat :=
-  unbound_cost g U (cmap (s_sh st)) + list_sum (map thread_cost (s_thr st)).
+  unbound_cost g U (cmap (s_sh st)) +
+  list_sum (map (thread_cost (list_sum (map (node_cost g) U))) (s_thr st)).
+
+Lemma unbound_le g U m : unbound_cost g U m <= list_sum (map (node_cost g) U).
+Proof.
+  unfold unbound_cost. induction U as [|x U IH]; [cbn; lia|].
+  cbn [map]. change (list_sum (?a :: ?l)) with (a + list_sum l).
+  destruct (lookup m x); lia.
+Qed.
 
 
 Lemma refs_in_gnames g n m : In m (refs g n) -> In m (gnames g).
@@ -100,16 +111,22 @@ Proof. reflexivity. Qed.
 Lemma stack_cost_nil : stack_cost [] = 0.
 Proof. reflexivity. Qed.
 
-(* advance stops at a pc that costs exactly the stack it was given, and does not touch the map *)
+Lemma stack_cost_len stk : length stk <= stack_cost stk.
+Proof. induction stk as [|f r IH]; [cbn; lia|]. rewrite stack_cost_cons. cbn [length]. lia. Qed.
+
+(* advance stops at a pc that costs at most the stack it was given, and does not touch the map *)
 Lemma advance_cost sh stk : stk <> [] ->
-  pc_cost (snd (advance sh stk)) = stack_cost stk /\ cmap (fst (advance sh stk)) = cmap sh.
+  pc_cost (snd (advance sh stk)) <= stack_cost stk /\ cmap (fst (advance sh stk)) = cmap sh.
 Proof.
   destruct stk as [|f rest]; [congruence|]. intros _. unfold advance.
   destruct (f_todo f) as [|m todo'] eqn:Et.
   - destruct rest as [|f2 r2]; cbn [fst snd pc_cost]; rewrite set_to_cmap; (split; [|reflexivity]).
-    + rewrite stack_cost_cons, stack_cost_nil, Et. reflexivity.
+    + rewrite stack_cost_cons, stack_cost_nil, Et. cbn. lia.
     + rewrite (stack_cost_cons f), Et. cbn [length]. lia.
-  - cbn. split; reflexivity.
+  - destruct (N.eqb m unsupported).
+    + pose proof (stack_cost_len rest) as L. rewrite stack_cost_cons, Et. cbn [length].
+      destruct rest as [|f2 r2]; cbn [fst snd pc_cost cmap fail_to]; (split; [|reflexivity]); cbn [length] in *; lia.
+    + cbn. split; [lia | reflexivity].
 Qed.
 
 Section Measure.
@@ -117,7 +134,7 @@ Variables (k : nat) (g : graph) (U : list name).
 Hypothesis U_nodup : NoDup U.
 Hypothesis U_gnames : forall m, In m (gnames g) -> In m U.
 
-Lemma todo_in_U sh f m todo' : frame_ok g sh f -> f_todo f = m :: todo' -> In m U.
+Lemma todo_in_U sh root f m todo' : frame_ok g sh root f -> f_todo f = m :: todo' -> In m U.
 Proof.
   intros (n' & dn & _ & Er & _) Et. apply U_gnames. apply (refs_in_gnames g n').
   rewrite Er, Et. apply in_or_app. right. left. reflexivity.
@@ -130,23 +147,23 @@ Lemma lstep_measure n sh p :
   | (sh', inr _) => unbound_cost g U (cmap sh') <= unbound_cost g U (cmap sh) /\ 1 <= pc_cost p
   end.
 Proof.
-  destruct p as [| | | |stk|stk|stk|c]; cbn [tinv]; intros H HnU; try contradiction.
+  destruct p as [| | | |stk|stk|stk|c|stk|]; cbn [tinv]; intros H HnU; try contradiction.
   - cbn [lstep]. destruct (lookup (cmap sh) n) as [c|]; [destruct (cell_to sh c)|]; cbn; lia.
   - destruct H as [W Hn]. cbn [lstep].
     pose proof (unbound_alloc g U (cmap sh) n (length (heap sh)) U_nodup HnU Hn) as Ua.
     unfold alloc.
     match goal with |- context [advance ?a ?b] =>
       destruct (advance_cost a b) as [Ec Em]; [discriminate|]; destruct (advance a b) as [sh2 p'] end.
-    cbn [fst snd] in Ec, Em. rewrite Ec, Em.
-    cbn [cmap pc_cost]. rewrite stack_cost_cons, stack_cost_nil. cbn [f_todo]. unfold node_cost, name, cellid in *. lia.
-  - destruct H as (W & [FA ND] & _ & (f & rest & m & todo' & -> & Et)).
+    cbn [fst snd] in Ec, Em. rewrite Em. rewrite stack_cost_cons, stack_cost_nil in Ec. cbn [f_todo] in Ec.
+    cbn [cmap pc_cost]. unfold node_cost, name, cellid in *. lia.
+  - destruct H as (W & [FA ND] & _ & (f & rest & m & todo' & -> & Et & _)).
     cbn [lstep]. rewrite Et. destruct (lookup (cmap sh) m) as [c|].
     + match goal with |- context [advance ?a ?b] =>
         destruct (advance_cost a b) as [Ec Em]; [discriminate|]; destruct (advance a b) as [sh2 p'] end.
-      cbn [fst snd] in Ec, Em. rewrite Ec, Em.
+      cbn [fst snd] in Ec, Em. rewrite Em. rewrite !stack_cost_cons in Ec. cbn [f_todo] in Ec.
       cbn [pc_cost]. rewrite !stack_cost_cons, Et. cbn [f_todo length]. lia.
     + cbn [pc_cost]. rewrite !stack_cost_cons, Et. cbn [length]. lia.
-  - destruct H as (W & [FA ND] & _ & (f & rest & m & todo' & -> & Et & Hm)).
+  - destruct H as (W & [FA ND] & _ & (f & rest & m & todo' & -> & Et & _ & Hm)).
     cbn [lstep]. rewrite Et.
     assert (HmU : In m U).
     { inversion FA; subst. eapply todo_in_U; eauto. }
@@ -154,11 +171,14 @@ Proof.
     unfold alloc.
     match goal with |- context [advance ?a ?b] =>
       destruct (advance_cost a b) as [Ec Em]; [discriminate|]; destruct (advance a b) as [sh2 p'] end.
-    cbn [fst snd] in Ec, Em. rewrite Ec, Em.
+    cbn [fst snd] in Ec, Em. rewrite Em. rewrite !stack_cost_cons in Ec. cbn [f_todo] in Ec.
     cbn [cmap pc_cost]. rewrite !stack_cost_cons, Et. cbn [f_todo length]. unfold node_cost, name, cellid in *. lia.
   - destruct H as (W & [FA ND] & (fb & Hl & _)). cbn [lstep].
     destruct (advance_cost sh stk) as [Ec Em]; [intros ->; discriminate Hl|].
-    destruct (advance sh stk) as [sh2 p']. cbn [fst snd] in Ec, Em. rewrite Ec, Em. cbn. lia.
+    destruct (advance sh stk) as [sh2 p']. cbn [fst snd] in Ec, Em. rewrite Em. cbn [pc_cost]. lia.
+  - cbn. lia.
+  - destruct H as (_ & _ & Hne). destruct stk as [|f rest]; [congruence|]. cbn [lstep].
+    destruct rest as [|f2 r2]; cbn [cmap fail_to pc_cost length]; lia.
   - cbn. lia.
 Qed.
 
@@ -179,19 +199,19 @@ Proof.
   destruct l as [|y l]; [destruct H|]. right. apply IH. exact H.
 Qed.
 
-Lemma thread_cost_finish th n rest res :
-  t_calls th = n :: rest -> thread_cost (finish_thread th res) = 3 * length rest.
+Lemma thread_cost_finish B th n rest res :
+  t_calls th = n :: rest -> thread_cost B (finish_thread th res) = (3 + B) * length rest.
 Proof.
   intros Hc. unfold thread_cost, finish_thread. cbn [t_calls t_pc]. rewrite Hc. cbn [tl].
   destruct rest as [|m r]; cbn [length pc_cost]; lia.
 Qed.
 
-Lemma thread_cost_with_pc th n rest p :
-  t_calls th = n :: rest -> thread_cost (with_pc th p) = pc_cost p + 3 * length rest.
+Lemma thread_cost_with_pc B th n rest p :
+  t_calls th = n :: rest -> thread_cost B (with_pc th p) = pc_cost p + B + (3 + B) * length rest.
 Proof. intros Hc. unfold thread_cost, with_pc. cbn [t_calls t_pc]. rewrite Hc. reflexivity. Qed.
 
-Lemma thread_cost_at th n rest :
-  t_calls th = n :: rest -> thread_cost th = pc_cost (t_pc th) + 3 * length rest.
+Lemma thread_cost_at B th n rest :
+  t_calls th = n :: rest -> thread_cost B th = pc_cost (t_pc th) + B + (3 + B) * length rest.
 Proof. intros Hc. unfold thread_cost. rewrite Hc. reflexivity. Qed.
 
 Lemma classic_can_step st t : can_step st t \/ ~ can_step st t.
@@ -222,37 +242,39 @@ Lemma gstep_decreases_inside st t th n rest :
 Proof.
   intros I Ht Hc Hin.
   pose proof (current_in_U _ _ _ _ _ I Ht Hc) as HnU.
-  pose proof (thread_cost_at _ _ _ Hc) as Cth.
   pose proof (inside_is_holder _ _ _ _ _ _ I Ht Hin) as El.
   destruct (gi_held _ _ _ _ I t El) as (thh & nh & resth & Hh & Hch & Ti & _).
   rewrite Ht in Hh. inversion Hh; subst thh. clear Hh.
   rewrite Hc in Hch. inversion Hch; subst nh resth. clear Hch.
   rewrite (gstep_inside k g t st th n rest Ht Hc Hin).
   pose proof (lstep_measure k g U (universe_nodup g calls) (universe_gnames g calls) n (s_sh st) (t_pc th) Ti HnU) as L.
-  pose proof (lstep_ok k g n (s_sh st) (t_pc th) Ti) as LO.
-  destruct (lstep k g n (s_sh st) (t_pc th)) as [sh' [p'|res]]; unfold mu.
+  unfold mu. set (B := list_sum (map (node_cost g) U)).
+  pose proof (thread_cost_at B _ _ _ Hc) as Cth.
+  destruct (lstep k g n (s_sh st) (t_pc th)) as [sh' [p'|res]].
   - cbn [s_sh s_thr].
-    pose proof (list_sum_set_nth thread_cost (s_thr st) t th (with_pc th p') Ht) as S.
-    rewrite (thread_cost_with_pc _ _ _ _ Hc) in S. lia.
-  - destruct L as [Lu Lp]. destruct LO as [_ ->].
-    set (res := result_solo k g n).
-    assert (Ecm : cmap (finish_shared res sh') = cmap sh') by reflexivity.
-    pose proof (list_sum_set_nth thread_cost (s_thr st) t th (finish_thread th res) Ht) as S.
-    rewrite (thread_cost_finish _ _ _ res Hc) in S.
+    pose proof (list_sum_set_nth (thread_cost B) (s_thr st) t th (with_pc th p') Ht) as S.
+    rewrite (thread_cost_with_pc B _ _ _ _ Hc) in S. lia.
+  - destruct L as [Lu Lp].
+    (* the map after the call: unchanged, or rolled back — never costlier than the whole universe *)
+    assert (Ecm : unbound_cost g U (cmap (finish_shared res sh')) <= unbound_cost g U (cmap sh') \/
+                  unbound_cost g U (cmap (finish_shared res sh')) <= B).
+    { destruct res; [right; apply unbound_le | left; cbn; lia]. }
+    pose proof (list_sum_set_nth (thread_cost B) (s_thr st) t th (finish_thread th res) Ht) as S.
+    rewrite (thread_cost_finish B _ _ _ res Hc) in S.
     unfold release; cbn [s_sh s_lock s_waitq s_thr].
-    destruct (s_waitq st) as [|w q] eqn:Eq; [cbn [s_sh s_thr]; rewrite Ecm; lia|].
+    destruct (s_waitq st) as [|w q] eqn:Eq; [cbn [s_sh s_thr]; lia|].
     destruct (gi_waitq _ _ _ _ I) as [_ Hw].
     assert (Hwin : In w (s_waitq st)) by (rewrite Eq; left; reflexivity).
     apply Hw in Hwin. destruct Hwin as (tw & Htw & Hpw).
     assert (Hwt : w <> t) by (intros ->; rewrite Ht in Htw; inversion Htw; subst tw; apply Hin; right; exact Hpw).
-    rewrite nth_error_set_nth_neq by congruence. rewrite Htw. cbn [s_sh s_thr reset_reg cmap]. rewrite Ecm.
+    rewrite nth_error_set_nth_neq by congruence. rewrite Htw. cbn [s_sh s_thr reset_reg cmap].
     pose proof (gi_wait_calls _ _ _ _ I _ _ Htw Hpw) as Hcw.
     destruct (t_calls tw) as [|nw restw] eqn:Ecw; [congruence|].
     assert (Htw1 : nth_error (set_nth (s_thr st) t (finish_thread th res)) w = Some tw)
       by (rewrite nth_error_set_nth_neq by congruence; exact Htw).
-    pose proof (list_sum_set_nth thread_cost _ w tw (with_pc tw PLookup) Htw1) as S2.
-    rewrite (thread_cost_with_pc _ _ _ _ Ecw) in S2.
-    rewrite (thread_cost_at _ _ _ Ecw), Hpw in S2. cbn [pc_cost] in S2. lia.
+    pose proof (list_sum_set_nth (thread_cost B) _ w tw (with_pc tw PLookup) Htw1) as S2.
+    rewrite (thread_cost_with_pc B _ _ _ _ Ecw) in S2.
+    rewrite (thread_cost_at B _ _ _ Ecw), Hpw in S2. cbn [pc_cost] in S2. lia.
 Qed.
 
 (* every step of a thread that can step decreases the measure *)
@@ -262,13 +284,15 @@ Proof.
   intros I (th & n & rest & Ht & Hc & Hnw).
   destruct (t_pc th) eqn:Hp; try congruence.
   - (* PEnter *)
-    pose proof (thread_cost_at _ _ _ Hc) as Cth.
-    unfold gstep. rewrite Ht, Hc, Hp. unfold mu.
+    unfold gstep. rewrite Ht, Hc, Hp. unfold mu. set (B := list_sum (map (node_cost g) U)).
+    pose proof (thread_cost_at B _ _ _ Hc) as Cth.
     destruct (s_lock st) as [h|]; cbn [s_sh s_thr reset_reg cmap].
-    + pose proof (list_sum_set_nth thread_cost (s_thr st) t th (with_pc th PWait) Ht) as S.
-      rewrite (thread_cost_with_pc _ _ _ _ Hc) in S. rewrite Hp in Cth. cbn [pc_cost] in *. lia.
-    + pose proof (list_sum_set_nth thread_cost (s_thr st) t th (with_pc th PLookup) Ht) as S.
-      rewrite (thread_cost_with_pc _ _ _ _ Hc) in S. rewrite Hp in Cth. cbn [pc_cost] in *. lia.
+    + pose proof (list_sum_set_nth (thread_cost B) (s_thr st) t th (with_pc th PWait) Ht) as S.
+      rewrite (thread_cost_with_pc B _ _ _ _ Hc) in S. rewrite Hp in Cth. cbn [pc_cost] in *. lia.
+    + pose proof (list_sum_set_nth (thread_cost B) (s_thr st) t th (with_pc th PLookup) Ht) as S.
+      rewrite (thread_cost_with_pc B _ _ _ _ Hc) in S. rewrite Hp in Cth. cbn [pc_cost] in *. lia.
+  - eapply gstep_decreases_inside; eauto. rewrite Hp. intros [E|E]; discriminate E.
+  - eapply gstep_decreases_inside; eauto. rewrite Hp. intros [E|E]; discriminate E.
   - eapply gstep_decreases_inside; eauto. rewrite Hp. intros [E|E]; discriminate E.
   - eapply gstep_decreases_inside; eauto. rewrite Hp. intros [E|E]; discriminate E.
   - eapply gstep_decreases_inside; eauto. rewrite Hp. intros [E|E]; discriminate E.
@@ -381,10 +405,16 @@ End Fair.
 
 (* ---- the bound, explicitly ---------------------------------------------------------- *)
 
-Lemma mu_init g calls : mu g (universe g calls) (init calls) = fuel_bound g calls.
+Lemma sum_init B calls :
+  list_sum (map (thread_cost B) (map init_thread calls)) = (3 + B) * length (concat calls).
 Proof.
-  unfold mu, fuel_bound, init. cbn [s_sh s_thr cmap empty_shared]. f_equal.
-  rewrite map_map. induction calls as [|c cs IH]; [reflexivity|].
+  induction calls as [|c cs IH]; [cbn; lia|].
   cbn [map concat]. rewrite list_sum_cons, IH, app_length.
   unfold thread_cost, init_thread. cbn [t_calls t_pc]. destruct c; cbn [length pc_cost]; lia.
+Qed.
+
+Lemma mu_init g calls : mu g (universe g calls) (init calls) = fuel_bound g calls.
+Proof.
+  unfold mu, fuel_bound, universe_cost, init. cbn [s_sh s_thr cmap empty_shared].
+  rewrite sum_init. f_equal.
 Qed.
